@@ -123,6 +123,11 @@ def single_defs(fn):
     for n in walk_own(fn):
         if isinstance(n, ast.Assign):
             for t in n.targets:
+                if isinstance(t, (ast.Tuple, ast.List)) and isinstance(n.value, (ast.Tuple, ast.List)) and len(t.elts) == len(n.value.elts) \
+                        and all(isinstance(x, ast.Name) for x in t.elts):
+                    for tt, vv in zip(t.elts, n.value.elts):      # a, b = x, y
+                        bump(tt, vv)
+                    continue
                 bump(t, n.value if isinstance(t, ast.Name) else None)
         elif isinstance(n, ast.AnnAssign) and n.value is not None:
             bump(n.target, n.value)
